@@ -8,7 +8,7 @@ open Coba.C12
 def errName : Err → String
   | .unicodeDecode => "UnicodeDecodeError" | .unicodeEncode => "UnicodeEncodeError"
   | .stopIteration => "StopIteration" | .csvError => "Error" | .valueError => "ValueError"
-  | .indexError => "IndexError" | .cobaException => "CobaException"
+  | .indexError => "IndexError" | .cobaException => "CobaException" | .typeError => "TypeError"
 
 def textJ (t : Text) : Json := ofList ofNat t
 def linesJ (ls : List Text) : Json := ofList textJ ls
@@ -23,6 +23,38 @@ def svmRowJ (r : SvmRow) : Json :=
 
 def csvJ (r : Option (List Text) × List (List Text)) : Json :=
   obj [("header", ofOpt linesJ r.1), ("rows", ofList linesJ r.2)]
+
+def cellJ : Cell → Json
+  | .missing => Json.arr #[Json.str "missing"]
+  | .num t => Json.arr #[Json.str "num", textJ t]
+  | .str t => Json.arr #[Json.str "str", textJ t]
+  | .cat t lv => Json.arr #[Json.str "cat", textJ t, linesJ lv]
+
+def arffJ : ArffResult → Json
+  | .empty => obj [("kind", Json.str "empty")]
+  | .dense names rows => obj [("kind", Json.str "dense"), ("names", linesJ names),
+      ("rows", ofList (fun (r : DenseRow) => obj [("cells", ofList cellJ r.cells), ("missing", Json.bool r.missing)]) rows)]
+  | .sparse names rows => obj [("kind", Json.str "sparse"), ("names", linesJ names),
+      ("rows", ofList (fun (r : SparseRow) => obj [("items", ofList (fun (p : Text × Cell) => Json.arr #[textJ p.1, cellJ p.2]) r.items),
+                                                   ("missing", Json.bool r.missing)]) rows)]
+
+def encJ : Enc → Json
+  | .numeric => Json.arr #[Json.str "numeric"]
+  | .str => Json.arr #[Json.str "str"]
+  | .nominal lv => Json.arr #[Json.str "nominal", linesJ lv]
+
+def parseTok (x : Json) : Except String (Bool × Text) := do
+  let qd ← bool (← field x "q"); let f ← natList (← field x "f"); pure (qd, f)
+
+def parseTypeW (j : Json) : Except String TypeW := do
+  let k ← str (← field j "k")
+  match k with
+  | "numeric" => pure (.numeric (← natList (← field j "w")))
+  | "string" => pure (.string (← natList (← field j "w")))
+  | _ => do
+    let pad ← nat (← field j "pad")
+    let lv ← (← arr (← field j "levels")).mapM parseTok
+    pure (.nominal pad lv)
 
 def parseDialect (j : Json) : Except String Dialect := do
   let delim ← nat (← field j "delim")
@@ -80,6 +112,38 @@ def handle (req : Json) : Except String Json := do
     let manik ← bool (fieldD req "manik" (Json.bool false))
     let r := if manik then manikRead ls else libsvmRead ls
     pure (obj [("rows", exJ (ofList svmRowJ) r)])
+  | "arffread" =>
+    -- the whole ArffReader on the lines of a file
+    let ls ← texts (← field req "lines")
+    pure (obj [("result", exJ arffJ (arffRead ls))])
+  | "arffsparseline" =>
+    let l ← natList (← field req "line")
+    let n ← nat (← field req "n")
+    pure (obj [("items", exJ (ofList (fun (p : Int × Text) => Json.arr #[ofInt p.1, textJ p.2])) (arffSparseLine n l)),
+               ("missing", Json.bool (sparseMissing l))])
+  | "sparsewrite" =>
+    let pad ← nat (← field req "pad")
+    let n ← nat (← field req "n")
+    let items ← (← arr (← field req "items")).mapM (fun x => do
+      let d ← natList (← field x "d"); let v ← natList (← field x "v"); pure (d, v))
+    pure (obj [("line", textJ (sparseWriteRow pad items)), ("hyp", Json.bool (sparseRowOk n items)),
+               ("want", ofList (fun (p : Text × Text) => Json.arr #[ofInt (digitsVal p.1), textJ p.2]) items)])
+  | "hdrwrite" =>
+    -- spec side of the header: attribute specs → lines of the Weka/OpenML writer, theorem hypotheses, expected and model result
+    let q ← nat (← field req "q")
+    let also ← natList (← field req "also")
+    let dense ← bool (← field req "dense")
+    let attrs ← (← arr (← field req "attrs")).mapM (fun a => do
+      let kw ← natList (← field a "kw"); let sep ← nat (← field a "sep"); let name ← parseTok (← field a "name")
+      let gap ← natList (← field a "gap"); let typ ← parseTypeW (← field a "typ")
+      pure (⟨kw, sep, name, gap, typ⟩ : AttrW))
+    let alsoF := fun c => also.contains c
+    let ls := attrs.map (·.line q alsoF)
+    let hyp := (q == SQ || q == DQ) && attrs.all (·.ok dense) && (attrs.map (·.name.2)).Nodup
+    let pairJ := fun (p : Text × Enc) => Json.arr #[textJ p.1, encJ p.2]
+    pure (obj [("lines", linesJ ls), ("hyp", Json.bool hyp),
+               ("want", ofList pairJ (attrs.map (fun a => (a.name.2, a.typ.enc dense)))),
+               ("model", exJ (ofList pairJ) (arffAttrs dense [] ls))])
   | "arffdense" =>
     -- data lines of a dense ARFF file through one ArffLineReader (simple path only)
     let ls ← texts (← field req "lines")
